@@ -19,22 +19,29 @@ type c01Ghost struct {
 func c01Shape(maxN int) vShape {
 	// one flat choice so that the exploration can be split across workers on the first decision.
 	// quick: N = 1..3, a learner exists only for N = 2 (and in the self-is-learner shape);
-	// thorough: N = 1..5, learner present/absent for every N, both flag settings.
+	// thorough: the same with both flag settings, plus 4 and 5 voters as candidate and leader.
 	roles := []StateType{StateFollower, StatePreCandidate, StateCandidate, StateLeader}
 	s := vShape{Prod: true, SimplePr: true}
 	if vsym.Thorough() {
-		k := vsym.Choose("shape", 5*2*5*2)
-		s.N = 1 + k%5
-		k /= 5
-		s.Learner = k%2 == 1
-		k /= 2
-		if k%5 == 4 {
+		// quick's 15 shapes with pre-vote/check-quorum on and off (30), plus 4 and 5 voters as candidate and
+		// leader (4). (The full product N=1..5 x learner x role x flags, 100 shapes, ran for more than an hour.)
+		k := vsym.Choose("shape", 34)
+		if k >= 30 {
+			k -= 30
+			s.N = 4 + k%2
+			s.Role = []StateType{StateCandidate, StateLeader}[k/2]
+			return s
+		}
+		s.Prod = k < 15
+		k %= 15
+		s.N = 1 + k%3
+		k /= 3
+		s.Learner = s.N == 2
+		if k == 4 {
 			s.Learner, s.SelfLearn, s.Role = true, true, StateFollower
 		} else {
-			s.Role = roles[k%5]
+			s.Role = roles[k]
 		}
-		k /= 5
-		s.Prod = k == 0
 	} else {
 		k := vsym.Choose("shape", 3*5)
 		s.N = 1 + k%3
